@@ -513,6 +513,31 @@ def main():
             else:
                 undecided.append(f"{oid}: {detail}")
             continue
+        if co.get("kind") == "fn_token_count_max":
+            # an ASSUMPTION turned into a checked side condition: a function verified under A-CLOCK ("one clock reading per call")
+            # contains at most `max` readings of the clock; more than that and the assumption no longer covers it (UNDECIDED, never a violation)
+            from lex import lex as _lex, locate as _locate
+            st, detail = "ok", ""
+            try:
+                toks = _lex(open(os.path.join(REPO, co["file"])).read())
+                loc = _locate(toks, co["fn"])
+                if loc is None:
+                    st, detail = "undecided", f"function {co['fn']} not found in {co['file']}"
+                else:
+                    want = co["tokens"]
+                    body = [t.text for t in toks[loc[1]:loc[2]]]
+                    n_hit = sum(1 for k in range(len(body)) if body[k:k + len(want)] == want)
+                    if n_hit > co["max"]:
+                        st, detail = "undecided", f"{co['fn']} contains `{' '.join(want)}` {n_hit} times (assumed: at most {co['max']}): {co['why'][:200]}"
+            except Exception as e:   # noqa
+                st, detail = "undecided", str(e)
+            rec = {"id": oid, "kind": "config", "source": co["file"], "backend": "token scan of one function body", "status": {"ok": "discharged", "undecided": "undecided"}[st], "detail": detail, "solver_ms": 0, "rlimit": None}
+            fn_records.append(rec)
+            if st == "ok":
+                discharged.append(oid)
+            else:
+                undecided.append(f"{oid}: {detail}")
+            continue
         if co.get("kind") in ("fn_must_not_contain", "fn_must_contain"):
             # a function body must not contain a given token sequence (e.g. `spawn (`): mechanical, for facts the extraction
             # rules would hide (R6 runs a spawned task at its spawn point, so a contract cannot tell a detached write from one in place)
